@@ -271,6 +271,11 @@ func (g *Gen) applyContract(fc *FuncContract, key string, sig *types.Signature, 
 		g.oblige("pre", key+":"+label+" @ "+text, s, pos, r.Text)
 		g.assume(s)
 	}
+	if key == g.key && g.inlineDepth == 0 && fc.Decreases != nil && fc.Decreases.E != nil && g.decEntryFn != "" {
+		// recursive call: the termination measure is bounded below and strictly smaller for the callee
+		m := g.eval(env, fc.Decreases.E)
+		g.oblige("dec", "recursion @ "+text, fmt.Sprintf("(and %s %s)", g.le(g.idxLit(0), g.decEntryFn), g.lt(m.S, g.decEntryFn)), pos, fc.Decreases.Text)
+	}
 	old := g.cur.clone()
 	env.old = old
 	// frame: havoc what the callee may modify
@@ -476,6 +481,17 @@ func (g *Gen) havocLoc(env *Env, le Expr) error {
 			}
 			return fmt.Errorf("bad all(...) location")
 		}
+		if x.Fun == "allentries" && len(x.Args) == 2 {
+			// allentries("K", "V"): the contents of every map[K]V
+			mt, err := g.mapTypeOf(x)
+			if err != nil {
+				return err
+			}
+			dom, val := g.mapHeaps(mt)
+			g.heapHavoc(g.cur, dom)
+			g.heapHavoc(g.cur, val)
+			return nil
+		}
 		if x.Fun == "entries" && len(x.Args) == 1 {
 			// entries(m): the contents of map m
 			v := g.eval(env, x.Args[0])
@@ -672,4 +688,28 @@ func (g *Gen) inlineCall(fn *ssa.Function, binds []Val, args []Val, rt types.Typ
 		return g.havocVal(rt, "ret.inl")
 	}
 	return g.runInline(fn, binds, args, rt, pos)
+}
+
+// mapTypeOf resolves allentries("K", "V") to the Go map type map[K]V.
+func (g *Gen) mapTypeOf(x *ECall) (mt *types.Map, err error) {
+	defer func() {
+		if r := recover(); r != nil {
+			if ee, ok := r.(evalErr); ok {
+				err = fmt.Errorf("%s", string(ee))
+				return
+			}
+			panic(r)
+		}
+	}()
+	ks, ok1 := x.Args[0].(*EStr)
+	vs, ok2 := x.Args[1].(*EStr)
+	if !ok1 || !ok2 {
+		return nil, fmt.Errorf("allentries needs two type names")
+	}
+	kt, _ := g.specType(ks.S)
+	vt, _ := g.specType(vs.S)
+	if kt == nil || vt == nil {
+		return nil, fmt.Errorf("allentries: unknown type %s / %s", ks.S, vs.S)
+	}
+	return types.NewMap(kt, vt), nil
 }
